@@ -74,6 +74,10 @@ func pwDomain(name string, r *rng, tier string) []string {
 		}
 		if name == "nthash" {
 			out = append(out, r.str(n, "abcXYZ019 !")) // ASCII: one UTF-16 unit per byte
+			// supplementary-plane characters take two UTF-16 units (a surrogate pair) each
+			if n >= 2 && n%2 == 0 && (n <= 16 || n == 64 || n == 128) {
+				out = append(out, strings.Repeat("\U0001F600", n/2), "a"+strings.Repeat("\U00010000", n/2-1)+"z")
+			}
 			if n%16 == 1 && n >= 3 {
 				out = append(out, strings.Repeat("é", n/3)+"€")
 			}
@@ -405,6 +409,22 @@ func c12Coherence(rep *report, sink *checkCaseSink, s *schemeOps) {
 			hs = append(hs, strings.Replace(g, "rounds=1000$", "rounds=01000$", 1))
 		case "argon2":
 			hs = append(hs, strings.Replace(g, "v=19$", "v=019$", 1), strings.Replace(strings.Replace(g, ",t=", ",T=", 1), "m=", "m=0", 1))
+		}
+	}
+	// well-formed hashes whose digest differs from a genuine one in the LAST symbol only (all other symbols of the
+	// digest alphabet): symbols that differ only in bits a decoder would drop are different digests
+	if g, err := s.newHash(pw, 0); err == nil && len(g) > 0 {
+		al := alphaCrypt
+		switch s.name {
+		case "argon2":
+			al = b64Std
+		case "nthash":
+			al = "0123456789abcdef"
+		}
+		for k := 0; k < len(al); k++ {
+			if al[k] != g[len(g)-1] {
+				hs = append(hs, g[:len(g)-1]+string(al[k]))
+			}
 		}
 	}
 	for _, h := range hs {
